@@ -41,14 +41,14 @@ Inductive impl_build :=
 | BOk (k : skel) (dom ran : sp) (lin func : bool) | BTypeErr | BZeroDiv | BOther.
 
 Record point := { p_x : vec; p_out : vec; p_ip : option vec }.
-Record case := { c_expr : sexpr T; c_build : impl_build; c_points : list point }.
+Record case := { c_vt : variant; c_expr : sexpr T; c_build : impl_build; c_points : list point }.
 
 Definition check (k : case) : bool :=
-  let s := c_expr k in
-  match build s, c_build k with
+  let s := c_expr k in let vt := c_vt k in
+  match build vt s, c_build k with
   | Ok o, BOk sk d r lin fn =>
       skel_ok o sk && sp_eqb (odom o) d && sp_eqb (oran o) r
-      && Bool.eqb (olin o) lin && Bool.eqb (ofunc o) fn
+      && Bool.eqb (olin vt o) lin && Bool.eqb (ofunc o) fn
       && sp_eqb (sdom s) d && sp_eqb (sran s) r
       && forallb (fun p =>
            vcl (p_out p) (eval o (p_x p))
@@ -62,9 +62,9 @@ Definition check (k : case) : bool :=
 
 (* the three partial verdicts, used by the harness to say WHAT differs *)
 Definition check_struct (k : case) : bool :=
-  match build (c_expr k), c_build k with
+  match build (c_vt k) (c_expr k), c_build k with
   | Ok o, BOk sk d r lin fn => skel_ok o sk && sp_eqb (odom o) d && sp_eqb (oran o) r
-                               && Bool.eqb (olin o) lin && Bool.eqb (ofunc o) fn
+                               && Bool.eqb (olin (c_vt k) o) lin && Bool.eqb (ofunc o) fn
   | Err TypeErr, BTypeErr | Err ZeroDivErr, BZeroDiv => true
   | _, _ => false
   end.
